@@ -2,10 +2,13 @@
 
 proof  : lean/Pyunicorn/Properties/C16.lean about the model
          lean/Pyunicorn/Model/Events.lean of eventseries/event_series.py
-tie    : exact correspondence (rational canonical forms) of the Lean model with
+tie    : exact correspondence (rational canonical forms) of the Lean model *and* of the Lean
+         published formulas (esSpec / ecaFormula / ecaRateFormula) with
          `event_synchronization`, `event_coincidence_analysis`,
          `_eca_coincidence_rate`, `event_series_analysis` and
-         `make_event_matrix` of the working tree
+         `make_event_matrix` of the working tree; translate/arith_C16.json regenerates the
+         source's guards / comparisons / count arithmetic / denominators into
+         Generated/ArithC16.lean, the gen_* theorems state the model in terms of them
 search : the published counting formulas as plain loops in `Fraction`, the
          range / exchange / shift / rescaling relations on the implementation,
          the N×N matrix against the static pairwise calls, thresholding against
@@ -30,7 +33,13 @@ WINDOWS = ["advanced", "retarded", "symmetric"]
 # --------------------------------------------------------------------------
 
 def fr(x):
-    return x if isinstance(x, Fr) else Fr(x)
+    if isinstance(x, Fr):
+        return x
+    if isinstance(x, np.floating):
+        return Fr(float(x))
+    if isinstance(x, np.integer):
+        return Fr(int(x))
+    return Fr(x)
 
 
 def enc_rat(x):
@@ -54,8 +63,10 @@ def enc_mat(M, enc=enc_bools):
     return ";".join(enc(r) for r in M) or "-"
 
 
-def canon_rate(v, tol=1e-6, den=400):
-    """float (float32 precision) -> canonical small rational string"""
+def canon_rate(v, tol=3e-7, den=900):
+    """float (float32 precision) -> canonical small rational string.  Rates are k/d with
+    d <= T <= 20, their `mean` has a denominator <= 2*20*20; two fractions with denominators
+    <= 900 differ by > 1.2e-6, float32 rounding of a value <= 1 is < 1.3e-7."""
     v = float(v)
     if math.isnan(v):
         return "nan"
@@ -218,12 +229,25 @@ def quantile_formula(col, q):
 
 TAUS = [np.inf, 0.0, 0.5, 1.0, 1.5, 2.0, 3.0, 5.0]
 LAGS = [0.0, 0.0, 0.5, -0.5, 1.0, -1.0, 2.0, -1.5]
+# wide parameter ranges (rare draws): windows far below / above every gap, lags beyond the record
+TAUS_WIDE = [2.0 ** -10, 2.0 ** -4, 64.0, 2048.0, np.inf]
+LAGS_WIDE = [0.0, 2.0 ** -10, -(2.0 ** -4), 100.0, -64.0, 4096.0]
+# extreme-but-exact changes of the time unit
+SCALES = [0.5, 2.0, 3.0, 8.0, 2.0 ** -34, 2.0 ** -20, 2.0 ** 30]
+X_DTYPES = ["int", "int", "bool", "int8", "float"]
 
 
 def gen_timestamps(rng, T):
-    kind = rng.choice(["index", "index", "quarter", "irregular", "offset"])
+    kind = rng.choice(["index", "index", "quarter", "irregular", "offset", "wide"])
     if kind == "index":
         return None, kind
+    if kind == "wide":
+        # gaps spread over 20 binary orders of magnitude
+        t, out = rng.choice([0.0, -1024.0]), []
+        for _ in range(T):
+            out.append(t)
+            t += rng.choice([2.0 ** -10, 2.0 ** -3, 1.0, 1.0, 32.0, 1024.0])
+        return out, kind
     if kind == "offset":
         o = rng.choice([-7.0, 3.5, 100.0])
         return [o + i for i in range(T)], kind
@@ -237,7 +261,9 @@ def gen_timestamps(rng, T):
 
 
 def gen_series(rng, T):
-    kind = rng.choice(["bern", "bern", "fewevents", "dense", "ends", "copy"])
+    kind = rng.choice(["bern", "bern", "fewevents", "dense", "ends", "copy", "full"])
+    if kind == "full":
+        return [1] * T
     if kind == "fewevents":
         k = rng.randrange(0, 4)
         idx = set(rng.sample(range(T), min(k, T)))
@@ -272,22 +298,44 @@ def run(ctx):
     quick = ctx.tier == "quick"
     ctx.rule = ("pair level: all pairs of binary series on "
                 f"{'6' if quick else '8'} slots (default options) + random pairs on 3-16 slots with "
-                "index / offset / quarter / irregular dyadic timestamps, taumax in {inf,0,.5,…,5}, "
-                "lag in {0,±.5,±1,2,-1.5}; matrix level: EventSeries objects N=2..5 × all "
-                "symmetrisations / windows; thresholding: integer data × quantiles k/8 / values / "
-                "types / defaults; distinct = distinct canonical request; non-trivial = both series "
-                "have >= 3 events (ES) / >= 1 event (ECA) / data not constant (thresholding)")
+                "index / offset / quarter / irregular / wide (gaps 2^-10..2^10) dyadic timestamps given as "
+                "float64 / float32 / int64 arrays, event series as int / bool / int8 / float arrays, "
+                "taumax in {inf,0,.5,...,5} or wide {2^-10,2^-4,64,2048}, lag in {0,+-.5,+-1,2,-1.5} or "
+                "wide {2^-10,-2^-4,100,-64,4096}; each request answered by the Lean model and by the Lean "
+                "published formula; matrix level: EventSeries objects N=1..6, T<=20 x all symmetrisations / "
+                "windows, default arguments, multi-step histories; thresholding: float64/float32/int data x "
+                "quantiles k/8, k/16 / values / types / defaults, scalar / array / list parameters, static "
+                "call and constructor (both axis orders); distinct = distinct canonical request; non-trivial "
+                "= both series have >= 3 events (ES) / >= 1 event (ECA) / data not constant (thresholding)")
     ctx.assumptions = [
         "event times / time stamps strictly increasing; event matrices binary",
-        "correspondence inputs are dyadic rationals (decisions exact in float64); float results "
-        "compared as canonical small rationals under tolerance 1e-9 (ES, squared) / 1e-6 (ECA, float32)",
-        "the division by sqrt((lx-2)(ly-2)) is outside the model (counts and squared norm are modelled)",
+        "correspondence inputs are dyadic rationals (decisions exact in float64 and, where used, float32); "
+        "float results compared as canonical small rationals under tolerance 1e-9 (ES, squared) / 3e-7 "
+        "(ECA, float32)",
+        "the division by sqrt((lx-2)(ly-2)) is modelled over the reals only (theorems es_strength_range, "
+        "esSymmOp_value); the executable model returns the counts and the squared norm",
+        "a caller editing an array returned by event_series_analysis (symmetrization='directed' returns the "
+        "cached matrix itself) is outside the histories checked",
     ]
     ctx.proofs()
     ES = EventSeries
 
-    def ts_arr(ts, T):
-        return None if ts is None else np.array(ts, dtype=float)
+    def ts_arr(ts, T, dtype=float):
+        return None if ts is None else np.array(ts, dtype=dtype)
+
+    def ts_dtype(ts, kind):
+        """caller arrays in both float widths / as integers where every value is exact"""
+        if ts is None or kind == "wide":
+            return float
+        c = [float]
+        if all(abs(v) < 2048 for v in ts):
+            c += [np.float32, np.float32]
+        if all(float(v).is_integer() for v in ts):
+            c.append(np.int64)
+        return rng.choice(c)
+
+    def x_arr(x, dt):
+        return np.array(x, dtype={"int": int, "bool": bool, "int8": np.int8, "float": float}[dt])
 
     def ts_enc(ts, T):
         return enc_rats(range(T)) if ts is None else enc_rats(ts)
@@ -306,23 +354,34 @@ def run(ctx):
         pairs += [(x, y) for x in vecs for y in vecs
                   if (sum(x) < 3 or sum(y) < 3) and rng.random() < 0.15]
     else:
-        pairs = [(x, y) for x in vecs for y in vecs if rng.random() < 0.35]
+        pairs = [(x, y) for x in vecs for y in vecs if rng.random() < 0.6]
     for x, y in pairs:
         cases.append((list(x), list(y), None, None, float("inf"), 0.0, "exhaustive"))
-    for _ in range(4000 if quick else 30000):
+    for _ in range(6000 if quick else 100000):
         T = rng.choice([3, 4, 5, 6, 7, 8, 9, 10, 12, 14, 16])
         x, y = gen_pair(rng, T)
         ts1, k1 = gen_timestamps(rng, T)
         ts2 = ts1
         if rng.random() < 0.15:
-            ts2, _ = gen_timestamps(rng, T)
-        cases.append((x, y, ts1, ts2, rng.choice(TAUS), rng.choice(LAGS), k1))
+            ts2, k2 = gen_timestamps(rng, T)
+            if "wide" in (k1, k2):
+                k1 = "wide"
+        wide = k1 == "wide" or rng.random() < 0.06
+        cases.append((x, y, ts1, ts2, rng.choice(TAUS_WIDE if wide else TAUS),
+                      rng.choice(LAGS_WIDE if wide else LAGS), k1))
 
     reqs, impl, meta = [], [], []
     for (x, y, ts1, ts2, tm, lag, kind) in cases:
         T = len(x)
-        ax, ay = np.array(x, dtype=int), np.array(y, dtype=int)
-        a1, a2 = ts_arr(ts1, T), ts_arr(ts2, T)
+        xdt = "int" if kind == "exhaustive" else rng.choice(X_DTYPES)
+        ax, ay = x_arr(x, xdt), x_arr(y, xdt)
+        tdt = float if kind == "exhaustive" else ts_dtype(
+            (ts1 or []) + (ts2 or []) if (ts1 or ts2) else None, kind)
+        a1, a2 = ts_arr(ts1, T, tdt), ts_arr(ts2, T, tdt)
+        held = [v.copy() for v in (ax, ay)] + [None if v is None else v.copy() for v in (a1, a2)]
+        ctx.count(f"dtype:x={xdt}")
+        if ts1 is not None:
+            ctx.count(f"dtype:ts={np.dtype(tdt).name}")
         e1, e2 = ts_enc(ts1, T), ts_enc(ts2, T)
         tx, ty = times(ts1, x), times(ts2, y)
         nx, ny = sum(x), sum(y)
@@ -337,6 +396,9 @@ def run(ctx):
         got = "raise:" + type(r).__name__ if isinstance(r, Exception) else \
             ",".join(canon_sq(v) for v in r)
         reqs.append(req)
+        impl.append(got)
+        # the index-wise published formula evaluated by the Lean side (theorem es_eq_formula)
+        reqs.append("esformula" + req[2:])
         impl.append(got)
         meta.append(("es", x, y, ts1, ts2, tm, lag))
         ctx.case(req, nx >= 3 and ny >= 3,
@@ -362,26 +424,47 @@ def run(ctx):
                          f"ES(x,y,lag) = {got} but ES(y,x,-lag) reversed = {g2}", rep)
             # shift of both time axes
             c = rng.choice([-3.0, 0.25, 17.0, 1024.5])
-            s1 = np.arange(T, dtype=float) + c if a1 is None else a1 + c
-            s2 = np.arange(T, dtype=float) + c if a2 is None else a2 + c
+            if tdt is np.int64:
+                c = float(int(c)) or 5.0
+            s1 = np.arange(T, dtype=float) + c if a1 is None else a1 + a1.dtype.type(c)
+            s2 = np.arange(T, dtype=float) + c if a2 is None else a2 + a2.dtype.type(c)
             r3 = call(lambda: ES.event_synchronization(ax, ay, ts1=s1, ts2=s2, taumax=tm, lag=lag))
             g3 = "raise" if isinstance(r3, Exception) else ",".join(canon_sq(v) for v in r3)
             if g3 != got:
                 ctx.fail({"kind": "shift", "method": "event_synchronization"},
                          f"ES changes under a common time shift {c}: {got} -> {g3}", dict(rep, shift=c))
-            if math.isinf(tm):
-                # (incl. extreme power-of-two units: an absolute tolerance anywhere in the
-                # distance tests would show here)
-                k = rng.choice([0.5, 2.0, 3.0, 8.0, 2.0 ** -34, 2.0 ** -20, 2.0 ** 30])
-                s1 = np.arange(T, dtype=float) * k if a1 is None else a1 * k
-                s2 = np.arange(T, dtype=float) * k if a2 is None else a2 * k
-                r4 = call(lambda: ES.event_synchronization(ax, ay, ts1=s1, ts2=s2, taumax=tm,
+            if math.isinf(tm) or rng.random() < 0.5:
+                # change of the time unit (incl. extreme power-of-two units: an absolute
+                # tolerance anywhere in the distance tests would show here); a finite window is
+                # rescaled with the unit (theorems es_scale / es_scale_window)
+                k = rng.choice(SCALES)
+                f1 = np.arange(T, dtype=float) if a1 is None else a1.astype(float)
+                f2 = np.arange(T, dtype=float) if a2 is None else a2.astype(float)
+                s1, s2 = f1 * k, f2 * k
+                if tdt is np.float32 and k >= 2.0 ** -34:
+                    s1, s2 = s1.astype(np.float32), s2.astype(np.float32)
+                r4 = call(lambda: ES.event_synchronization(ax, ay, ts1=s1, ts2=s2, taumax=tm * k,
                                                            lag=lag * k))
                 g4 = "raise" if isinstance(r4, Exception) else ",".join(canon_sq(v) for v in r4)
                 if g4 != got:
                     ctx.fail({"kind": "scale", "method": "event_synchronization"},
-                             f"ES (taumax=inf) changes under time rescaling by {k}: {got} -> {g4}",
+                             f"ES (taumax={tm}) changes under rescaling of time"
+                             f"{'' if math.isinf(tm) else ' and window'} by {k}: {got} -> {g4}",
                              dict(rep, scale=k))
+            # positional call, as documented: (x, y, ts1, ts2, taumax, lag)
+            if rng.random() < 0.2:
+                r5 = call(lambda: ES.event_synchronization(ax, ay, a1, a2, tm, lag))
+                g5 = "raise" if isinstance(r5, Exception) else ",".join(canon_sq(v) for v in r5)
+                if g5 != got:
+                    ctx.fail({"kind": "positional", "method": "event_synchronization"},
+                             f"positional call differs from keyword call: {g5} vs {got}", rep)
+
+        def untouched(where):
+            for nm, now, was in zip(("x", "y", "ts1", "ts2"), (ax, ay, a1, a2), held):
+                if was is not None and not np.array_equal(now, was):
+                    ctx.fail({"kind": "caller-array-modified", "method": where, "array": nm},
+                             f"{where} modified the caller's array {nm}", rep)
+        untouched("event_synchronization")
 
         # ---- ECA (finite taumax only) -----------------------------------
         if math.isinf(tm):
@@ -393,6 +476,9 @@ def run(ctx):
         req = f"eca {e1} {enc_bools(x)} {e2} {enc_bools(y)} {enc_rat(tm)} {enc_rat(lag)}"
         got = "raise" if isinstance(r, Exception) else ",".join(canon_rate(v) for v in r)
         reqs.append(req)
+        impl.append(got)
+        # time-wise formula (theorem eca_eq_formula)
+        reqs.append("ecaformula" + req[3:])
         impl.append(got)
         meta.append(("eca", x, y, ts1, ts2, tm, lag))
         ctx.case(req, not empty,
@@ -418,13 +504,28 @@ def run(ctx):
                 ctx.fail({"kind": "exchange", "method": "event_coincidence_analysis"},
                          f"ECA(x,y) = {got} but ECA(y,x) with directions swapped = {g2}", rep)
             c = rng.choice([-3.0, 0.25, 17.0])
-            s1 = np.arange(T, dtype=float) + c if a1 is None else a1 + c
-            s2 = np.arange(T, dtype=float) + c if a2 is None else a2 + c
+            if tdt is np.int64:
+                c = float(int(c)) or 5.0
+            s1 = np.arange(T, dtype=float) + c if a1 is None else a1 + a1.dtype.type(c)
+            s2 = np.arange(T, dtype=float) + c if a2 is None else a2 + a2.dtype.type(c)
             r3 = call(lambda: ES.event_coincidence_analysis(ax, ay, tm, ts1=s1, ts2=s2, lag=lag))
             g3 = "raise" if isinstance(r3, Exception) else ",".join(canon_rate(v) for v in r3)
             if g3 != got:
                 ctx.fail({"kind": "shift", "method": "event_coincidence_analysis"},
                          f"ECA changes under a common time shift {c}: {got} -> {g3}", dict(rep, shift=c))
+            # change of the time unit, window and lag rescaled with it (theorem eca_affine)
+            k = rng.choice(SCALES)
+            f1 = np.arange(T, dtype=float) if a1 is None else a1.astype(float)
+            f2 = np.arange(T, dtype=float) if a2 is None else a2.astype(float)
+            r4 = call(lambda: ES.event_coincidence_analysis(ax, ay, tm * k, ts1=f1 * k, ts2=f2 * k,
+                                                            lag=lag * k))
+            g4 = "raise" if isinstance(r4, Exception) else ",".join(canon_rate(v) for v in r4)
+            if g4 != got:
+                ctx.fail({"kind": "scale", "method": "event_coincidence_analysis"},
+                         f"ECA changes under rescaling of time, window and lag by {k}: {got} -> {g4}",
+                         dict(rep, scale=k))
+
+        untouched("event_coincidence_analysis")
 
         # ---- _eca_coincidence_rate (object with taumax / lag) ----------
         if empty:
@@ -435,6 +536,8 @@ def run(ctx):
         req = f"ecarate {w} {e1} {enc_bools(x)} {e2} {enc_bools(y)} {enc_rat(tm)} {enc_rat(lag)}"
         got = "raise" if isinstance(r, Exception) else ",".join(canon_rate(v) for v in r)
         reqs.append(req)
+        impl.append(got)
+        reqs.append("ecarateformula" + req[7:])
         impl.append(got)
         meta.append(("ecarate", w, x, y, ts1, ts2, tm, lag))
         ctx.case(req, True)
@@ -457,17 +560,18 @@ def run(ctx):
             if g2 != got:
                 ctx.fail({"kind": "exchange", "method": "_eca_coincidence_rate", "window_type": w},
                          f"rate({w})(x,y) = {got} but (y,x) reversed = {g2}", rep)
-    ctx.correspond("Lean Events model == event_synchronization / event_coincidence_analysis / "
-                   "_eca_coincidence_rate", reqs, impl)
+    ctx.correspond("Lean Events model (es/eca/ecaRate) and Lean published formulas "
+                   "(esSpec/ecaFormula/ecaRateFormula) == event_synchronization / "
+                   "event_coincidence_analysis / _eca_coincidence_rate", reqs, impl)
     ctx.extra["pair_calls_compared"] = len(reqs)
 
     # ------------------------------------------------------------------
     # matrix level
     # ------------------------------------------------------------------
     reqs, impl = [], []
-    for c in range(300 if quick else 2500):
-        N = rng.choice([2, 3, 3, 4, 5])
-        T = rng.choice([4, 6, 8, 10, 12])
+    for c in range(500 if quick else 8000):
+        N = rng.choice([1, 2, 3, 3, 4, 5, 6])
+        T = rng.choice([4, 6, 8, 10, 12, 20])
         cols = []
         for _ in range(N):
             cols.append(gen_series(rng, T) if not cols or rng.random() < 0.8
@@ -478,17 +582,57 @@ def run(ctx):
             if len(np.unique(E)) != 2:
                 continue
         ts, kind = gen_timestamps(rng, T)
-        tm, lag = rng.choice(TAUS), rng.choice(LAGS)
-        a = ts_arr(ts, T)
-        obj = call(lambda: ES(E, timestamps=a, taumax=tm, lag=lag))
+        wide = kind == "wide" or rng.random() < 0.06
+        tm, lag = rng.choice(TAUS_WIDE if wide else TAUS), rng.choice(LAGS_WIDE if wide else LAGS)
+        a = ts_arr(ts, T, ts_dtype(ts, kind))
+        if rng.random() < 0.3:
+            E = E.astype(rng.choice([np.int8, float, np.int32]))
+        E0, a0 = E.copy(), (None if a is None else a.copy())
+        kwobj = {}
+        if a is not None:
+            kwobj["timestamps"] = a
+        if not (math.isinf(tm) and rng.random() < 0.5):
+            kwobj["taumax"] = tm       # else: the documented default np.inf
+        if not (lag == 0 and rng.random() < 0.5):
+            kwobj["lag"] = lag         # else: the documented default 0.0
+        obj = call(lambda: ES(E, **kwobj))
         if isinstance(obj, Exception):
             ctx.fail({"kind": "constructor", "error": type(obj).__name__},
                      f"EventSeries constructor raised {obj!r}", {"E": E.tolist(), "ts": ts})
             continue
-        Eenc = enc_mat(E.tolist())
+        ctx.count(f"matrix:N={N}")
+        Eenc = enc_mat(E.astype(int).tolist())
+        # multi-step history on this one object: every later call must return what a fresh
+        # object returns for the same call, whatever was computed (and cached) before
+        hist = []
+
+        def fresh_same(method, s_, w_, M, rep):
+            """compare with a fresh object built from copies of the original arrays"""
+            o2 = ES(E0.copy(), **dict(kwobj, **({"timestamps": a0.copy()} if a0 is not None else {})))
+            kw2 = {"method": method, "symmetrization": s_}
+            if method == "ECA":
+                kw2["window_type"] = w_
+            M2 = call(lambda: o2.event_series_analysis(**kw2))
+            hist.append((method, s_, w_))
+            if isinstance(M, Exception) or isinstance(M2, Exception):
+                same = isinstance(M, Exception) and isinstance(M2, Exception)
+            else:
+                same = np.array_equal(np.asarray(M), np.asarray(M2), equal_nan=True)
+            if not same:
+                ctx.fail({"kind": "history", "method": method, "symmetrization": s_},
+                         f"after the calls {hist[:-1]} on one object, event_series_analysis"
+                         f"({method},{s_},{w_}) differs from the same call on a fresh object",
+                         dict(rep, history=[list(h) for h in hist]))
         # --- ES ---
-        for s in (SYMMS_ES if c % 3 == 0 else rng.sample(SYMMS_ES, 2)):
-            M = call(lambda: obj.event_series_analysis(method="ES", symmetrization=s))
+        es_list = list(SYMMS_ES if c % 3 == 0 else rng.sample(SYMMS_ES, 2))
+        if c % 2 == 0:
+            rng.shuffle(es_list)
+            es_list += rng.sample(SYMMS_ES, 2)       # repeats: the cached directed matrix is reused
+        for s in es_list:
+            if s == "directed" and rng.random() < 0.5:
+                M = call(lambda: obj.event_series_analysis())      # documented defaults
+            else:
+                M = call(lambda: obj.event_series_analysis(method="ES", symmetrization=s))
             req = f"esmat {ts_enc(ts, T)} {Eenc} {N} {enc_rat(tm)} {enc_rat(lag)} {s}"
             got = "raise" if isinstance(M, Exception) else enc_mat(M, lambda r: ",".join(canon_sq(v) for v in r))
             reqs.append(req)
@@ -508,6 +652,7 @@ def run(ctx):
                     D[i, j], D[j, i] = ES.event_synchronization(
                         E[:, i], E[:, j], ts1=tsd, ts2=tsd, taumax=tm, lag=lag)
             check_matrix(ctx, M, D, s, rep, N)
+            fresh_same("ES", s, None, M, rep)
         # --- ECA ---
         if math.isinf(tm):
             M = call(lambda: obj.event_series_analysis(method="ECA"))
@@ -517,8 +662,11 @@ def run(ctx):
             continue
         for w in WINDOWS:
             s = rng.choice(SYMMS_ECA)
-            M = call(lambda: obj.event_series_analysis(method="ECA", symmetrization=s,
-                                                       window_type=w))
+            if w == "symmetric" and rng.random() < 0.5:
+                M = call(lambda: obj.event_series_analysis(method="ECA", symmetrization=s))
+            else:
+                M = call(lambda: obj.event_series_analysis(method="ECA", symmetrization=s,
+                                                           window_type=w))
             req = f"ecamat {w} {ts_enc(ts, T)} {Eenc} {N} {enc_rat(tm)} {enc_rat(lag)} {s}"
             got = "raise" if isinstance(M, Exception) else enc_mat(M, lambda r: ",".join(canon_rate(v) for v in r))
             noev = int(E.sum(axis=0).min()) == 0
@@ -548,6 +696,18 @@ def run(ctx):
                             E[:, i], E[:, j], tm, ts1=tsd, ts2=tsd, lag=lag))
                         D[i, j], D[j, i] = (p12, p21) if w == "advanced" else (g12, g21)
             check_matrix(ctx, M, D, s, rep, N)
+            fresh_same("ECA", s, w, M, rep)
+        # an ES call after the ECA calls, then the arrays the object holds
+        s = rng.choice(SYMMS_ES)
+        M = call(lambda: obj.event_series_analysis(method="ES", symmetrization=s))
+        fresh_same("ES", s, None, M, {"call": "event_series_analysis", "method": "ES",
+                                      "symmetrization": s, "E": E0.tolist(), "timestamps": ts,
+                                      "taumax": tm, "lag": lag})
+        if not np.array_equal(E, E0) or not np.array_equal(obj.get_event_matrix(), E0) or \
+                (a is not None and not np.array_equal(a, a0)):
+            ctx.fail({"kind": "held-array-modified", "class": "EventSeries"},
+                     "event_series_analysis modified the event matrix / time stamps it holds",
+                     {"E": E0.tolist(), "timestamps": ts, "history": [list(h) for h in hist]})
     ctx.correspond("Lean Events model == event_series_analysis (ES / ECA matrices, symmetrisations)",
                    reqs, impl)
     ctx.extra["matrix_calls_compared"] = len(reqs)
@@ -556,12 +716,19 @@ def run(ctx):
     # thresholding
     # ------------------------------------------------------------------
     reqs, impl = [], []
-    for c in range(600 if quick else 6000):
+    for c in range(1000 if quick else 20000):
         N = rng.choice([1, 2, 3, 4])
-        T = rng.choice([1, 2, 3, 4, 5, 6, 8, 9, 12, 17])
+        T = rng.choice([1, 2, 3, 4, 5, 6, 8, 9, 12, 17, 24, 33])
         span = rng.choice([2, 3, 6, 20])
-        data = np.array([[float(rng.randrange(-span, span + 1)) * rng.choice([1, 1, 0.5])
+        half = rng.random() < 0.6
+        data = np.array([[float(rng.randrange(-span, span + 1)) * (rng.choice([1, 1, 0.5]) if half else 1)
                           for _ in range(N)] for _ in range(T)])
+        if rng.random() < 0.15:
+            data[:, rng.randrange(N)] = data[0, 0]        # a constant variable
+        # caller data in both float widths, or as integers
+        ddt = rng.choice([float, float, np.float32] + ([] if half else [np.int64]))
+        data = data.astype(ddt)
+        ctx.count(f"threshold:data={np.dtype(ddt).name}")
         per_var = rng.random() < 0.5
         ms = [rng.choice(["quantile", "value"]) for _ in range(N)]
         if not per_var:
@@ -570,10 +737,11 @@ def run(ctx):
         vs = []
         for i in range(N):
             if ms[i] == "quantile":
-                vs.append(rng.choice([0, 1, 2, 3, 4, 5, 6, 7, 8, 4, 7]) / 8
-                          if rng.random() < 0.93 else rng.choice([-0.25, 1.5]))
+                vs.append((rng.choice([0, 1, 2, 3, 4, 5, 6, 7, 8, 4, 7]) / 8
+                           if rng.random() < 0.8 else rng.randrange(17) / 16)
+                          if rng.random() < 0.93 else rng.choice([-0.25, 1.5, -2.0 ** -20, 1 + 2.0 ** -20]))
             else:
-                col = sorted(set(data[:, i]))
+                col = sorted(set(float(v) for v in data[:, i]))
                 vs.append(rng.choice(col) + rng.choice([0, 0, 0.25, -0.25])
                           if rng.random() < 0.9 else rng.choice([col[0] - 1, col[-1] + 1]))
         if not per_var:
@@ -581,14 +749,39 @@ def run(ctx):
         tys = [rng.choice(["above", "below"]) for _ in range(N)]
         if not per_var:
             tys = [tys[0]] * N
-        kw = {"threshold_method": np.array(ms) if per_var and N > 1 else ms[0]}
+        aslist = rng.random() < 0.3          # per-variable parameters as plain lists
+        kw = {"threshold_method": (list(ms) if aslist else np.array(ms)) if per_var and N > 1 else ms[0]}
         if give_v:
-            kw["threshold_values"] = np.array(vs, dtype=float) if per_var and N > 1 else float(vs[0])
+            if per_var and N > 1:
+                kw["threshold_values"] = [float(v) for v in vs] if aslist else np.array(vs, dtype=float)
+            else:
+                v0 = float(vs[0])
+                kw["threshold_values"] = int(v0) if v0.is_integer() and rng.random() < 0.5 else v0
         if give_t:
-            kw["threshold_types"] = np.array(tys) if per_var and N > 1 else tys[0]
+            kw["threshold_types"] = (list(tys) if aslist else np.array(tys)) if per_var and N > 1 else tys[0]
         if not (per_var and N > 1):
             ms, vs, tys = [ms[0]] * N, [vs[0]] * N, [tys[0]] * N
-        r = call(lambda: ES.make_event_matrix(data, **kw))
+        via = "static"
+        if T > N and rng.random() < 0.3:
+            # the public constructor path (threshold_* given): data as [time, variables] or with
+            # the axes the other way round (the constructor swaps them when shape[1] > shape[0])
+            via = rng.choice(["constructor", "constructor-swapped"])
+            dd = data if via == "constructor" else np.ascontiguousarray(data.T)
+            d0 = dd.copy()
+            kwc = {"threshold_method": kw["threshold_method"],
+                   "threshold_values": kw.get("threshold_values"),
+                   "threshold_types": kw.get("threshold_types")}
+            r = call(lambda: ES(dd, **kwc).get_event_matrix())
+            if not np.array_equal(dd, d0):
+                ctx.fail({"kind": "caller-array-modified", "method": "EventSeries.__init__"},
+                         "the constructor modified the caller's data array", {"data": d0.tolist()})
+        else:
+            d0 = data.copy()
+            r = call(lambda: ES.make_event_matrix(data, **kw))
+            if not np.array_equal(data, d0):
+                ctx.fail({"kind": "caller-array-modified", "method": "make_event_matrix"},
+                         "make_event_matrix modified the caller's data array", {"data": d0.tolist()})
+        ctx.count(f"threshold:via={via}")
         req = "mkev {} {} {} {} {}".format(
             enc_mat(data.tolist(), enc_rats), N, ",".join(m[0] for m in ms),
             ",".join(enc_rat(v) if give_v else "none" for v in vs),
@@ -603,7 +796,8 @@ def run(ctx):
                  if T <= 5 else None)
         ctx.count(f"threshold:{'per-variable' if per_var and N > 1 else 'scalar'}:"
                   f"{'values' if give_v else 'default-values'}:{'types' if give_t else 'default-types'}")
-        rep = {"call": "make_event_matrix", "data": data.tolist(),
+        rep = {"call": "make_event_matrix", "via": via, "data": data.tolist(),
+               "dtype": np.dtype(ddt).name,
                "kwargs": {k: (v.tolist() if hasattr(v, "tolist") else v) for k, v in kw.items()},
                "observed": got}
         # independent expectation
@@ -634,7 +828,7 @@ def run(ctx):
             exp.append([int(fr(d) > th) if t == "above" else int(fr(d) < th) for d in col])
         expected = "raise:" + err if err else enc_mat(np.array(exp).T.tolist())
         if got != expected:
-            ctx.fail({"kind": "threshold", "method": "make_event_matrix",
+            ctx.fail({"kind": "threshold", "method": "make_event_matrix", "via": via,
                       "threshold_method": ms[0] if not per_var else "mixed"},
                      f"make_event_matrix marks {got}, samples beyond the stated threshold are {expected}",
                      dict(rep, expected=expected))
